@@ -15,7 +15,8 @@ LEVEL = "model_checking"
 RULE = ("BFS over (operation, abstract argument) states from seed states (empty call, hand-written non-canonical texts); "
         "every enabled (observation script, approved subset of {create,fix,trim,update}) is executed as one real session "
         "on a single-site file whose argument text is the verbatim text the implementation wrote when the state was first "
-        "reached; the reference model must predict the reported categories and the next abstract state of every transition")
+        "reached; the reference model must predict the reported categories and the next abstract state of every transition"
+        "; plus constructor-call states (keyword / positional) and values with a non-symmetric == against their HasRepr stand-in")
 ASSUMPTIONS = [
     "values are ints / short strings / None and list, tuple, dict displays of them; hand-written text is `v+0`",
     "test bodies record comparison results instead of asserting, so observations do not depend on the approved set",
